@@ -2,9 +2,10 @@
   Helper lemmas for C13 (model: GHEVerif/Model/Api.lean).
 
   Part 1 — one GHE: two objects that differ only in what earlier calls left behind (interpolation
-  table in the canonical non-extrapolating mode, time axis, results, trace) behave identically,
-  for `simulate`, the objective of `size`, brentq's probes, `size`, `compute_g_functions`, and
-  hence for every sequence of operations (`runG_refines`).
+  table, time axis, results, trace) behave identically, for `simulate`, the objective of `size`,
+  brentq's probes, `size`, `compute_g_functions`, and hence for every sequence of operations
+  (`runG_refines`).  Since fix 5ab5ff6 the interpolation table is rebuilt whenever it was built
+  for another (kind, fill mode), so no hypothesis on the heights is needed.
   Part 2 — one search object: the run from any borehole height equals the run that does not know
   the height (`runSearch_sim`, `designFrom_indep`).
   Part 3 — managers and heap: what a history leaves in a manager's slots (`inv_runOps`).
@@ -14,34 +15,34 @@ import Mathlib.Tactic.SplitIfs
 namespace GHEVerif.Api
 open GHEVerif
 
-def TableOKc (hs : List Rat) (tb : Option (Kind × Fill)) : Prop := tb = none ∨ tb = some (kindOf hs.length, Fill.empty)
-def TableOK (gf : GF) : Prop := TableOKc gf.heights gf.table
-def Covered (hs : List Rat) (h : Rat) : Prop := hs.length ≤ 1 ∨ fillOf hs h = Fill.empty
-
-theorem lookupCore_reset (hs : List Rat) (tb : Option (Kind × Fill)) (h : Rat) (ht : TableOKc hs tb) (hc : Covered hs h) :
-    (lookupCore hs tb h).1 = (lookupCore hs none h).1 ∧ TableOKc hs (lookupCore hs tb h).2 := by
-  match hs, ht, hc with
-  | [], ht, _ => exact ⟨rfl, ht⟩
-  | [h0], ht, _ =>
+/-- What `g_function_interpolation` returns does not depend on the table it finds. -/
+theorem lookupCore_reset (hs : List Rat) (tb : Option (Kind × Fill)) (h : Rat) :
+    (lookupCore hs tb h).1 = (lookupCore hs none h).1 := by
+  match hs with
+  | [] => rfl
+  | [h0] =>
       simp only [lookupCore]
-      split_ifs <;> exact ⟨rfl, ht⟩
-  | h0 :: h1 :: t, ht, hc =>
-      have hf : fillOf (h0 :: h1 :: t) h = Fill.empty := by
-        rcases hc with hc | hc
-        · simp at hc
-        · exact hc
-      have htb : tb.getD (kindOf (h0 :: h1 :: t).length, Fill.empty) = (kindOf (h0 :: h1 :: t).length, Fill.empty) := by
-        rcases ht with ht | ht
-        · rw [ht]; rfl
-        · rw [ht]; rfl
-      simp only [lookupCore, hf, htb, Option.getD_none]
-      split_ifs <;> first | exact ⟨rfl, Or.inr rfl⟩ | exact ⟨trivial, Or.inr rfl⟩
+      split_ifs <;> rfl
+  | h0 :: h1 :: t =>
+      have htb : (if tb = some (kindOf (h0 :: h1 :: t).length, fillOf (h0 :: h1 :: t) h)
+                  then tb.getD (kindOf (h0 :: h1 :: t).length, fillOf (h0 :: h1 :: t) h)
+                  else (kindOf (h0 :: h1 :: t).length, fillOf (h0 :: h1 :: t) h)) =
+                 (kindOf (h0 :: h1 :: t).length, fillOf (h0 :: h1 :: t) h) := by
+        split_ifs with hc
+        · rw [hc]; rfl
+        · rfl
+      have htn : (if (none : Option (Kind × Fill)) = some (kindOf (h0 :: h1 :: t).length, fillOf (h0 :: h1 :: t) h)
+                  then (none : Option (Kind × Fill)).getD (kindOf (h0 :: h1 :: t).length, fillOf (h0 :: h1 :: t) h)
+                  else (kindOf (h0 :: h1 :: t).length, fillOf (h0 :: h1 :: t) h)) =
+                 (kindOf (h0 :: h1 :: t).length, fillOf (h0 :: h1 :: t) h) := by
+        split_ifs <;> rfl
+      simp only [lookupCore, htb, htn]
 
 theorem lookup_heights (gf : GF) (h : Rat) : (lookup gf h).2.heights = gf.heights := rfl
 
-theorem lookup_reset (gf : GF) (h : Rat) (ht : TableOK gf) (hc : Covered gf.heights h) :
-    (lookup gf h).1 = (lookup { gf with table := none } h).1 ∧ TableOK (lookup gf h).2 :=
-  lookupCore_reset gf.heights gf.table h ht hc
+theorem lookup_reset (gf : GF) (h : Rat) :
+    (lookup gf h).1 = (lookup { gf with table := none } h).1 :=
+  lookupCore_reset gf.heights gf.table h
 
 /-- Two GHE objects that differ at most in what earlier calls left behind. -/
 structure Eqv (g g' : GHE) : Prop where
@@ -49,223 +50,163 @@ structure Eqv (g g' : GHE) : Prop where
   field : g.field = g'.field
   hLoad : g.hLoad = g'.hLoad
   heights : g.gf.heights = g'.gf.heights
-  ok : TableOK g.gf
-  ok' : TableOK g'.gf
 
-theorem simulate_eqv (K : Kernels) (b : BH) (g g' : GHE) (m : Method) (he : Eqv g g') (hc : Covered g.gf.heights b.H) :
+theorem simulate_eqv (K : Kernels) (b : BH) (g g' : GHE) (m : Method) (he : Eqv g g') :
     (simulate K b g m).1 = (simulate K b g' m).1 ∧ Eqv (simulate K b g m).2 (simulate K b g' m).2 ∧
     (∀ t, (simulate K b g m).1 = .ok t → (simulate K b g m).2.last = (simulate K b g' m).2.last) := by
-  obtain ⟨h1, h2, h3, h4, h5, h6⟩ := he
-  have e1 := lookup_reset g.gf b.H h5 hc
-  have e2 := lookup_reset g'.gf b.H h6 (h4 ▸ hc)
+  obtain ⟨h1, h2, h3, h4⟩ := he
   have e3 : (lookup g.gf b.H).1 = (lookup g'.gf b.H).1 := by
-    rw [e1.1, e2.1]; unfold lookup; rw [h4]
+    rw [lookup_reset g.gf, lookup_reset g'.gf]; unfold lookup; rw [h4]
   unfold simulate
   by_cases hz : b.H = 0
-  · simp only [hz, if_true]; exact ⟨trivial, ⟨h1, h2, h3, h4, h5, h6⟩, fun _ h => by cases h⟩
+  · simp only [hz, if_true]; exact ⟨trivial, ⟨h1, h2, h3, h4⟩, fun _ h => by cases h⟩
   · simp only [hz, if_false]
     have k1 := lookup_heights g.gf b.H
     have k2 := lookup_heights g'.gf b.H
-    have t1 := e1.2
-    have t2 := e2.2
     rcases hL : lookup g.gf b.H with ⟨r, gf1⟩
     rcases hL' : lookup g'.gf b.H with ⟨r', gf1'⟩
-    rw [hL] at k1 t1 e3
-    rw [hL'] at k2 t2 e3
-    simp only at k1 k2 t1 t2 e3
+    rw [hL] at k1 e3
+    rw [hL'] at k2 e3
+    simp only at k1 k2 e3
     subst e3
+    have hh : gf1.heights = gf1'.heights := by rw [k1, k2, h4]
     cases r with
-    | error e => exact ⟨rfl, ⟨h1, h2, h3, by rw [k1, k2, h4], t1, t2⟩, fun _ h => by cases h⟩
+    | error e => exact ⟨rfl, ⟨h1, h2, h3, hh⟩, fun _ h => by cases h⟩
     | ok look =>
-      have hh : gf1.heights = gf1'.heights := by rw [k1, k2, h4]
       cases m with
       | hybrid =>
         simp only [h1, h2, h3]
-        exact ⟨by first | rfl | trivial, ⟨rfl, rfl, rfl, hh, t1, t2⟩, by simp⟩
+        exact ⟨by first | rfl | trivial, ⟨rfl, rfl, rfl, hh⟩, by simp⟩
       | hourly =>
         simp only [h1, h2, h3]
         split_ifs
-        · exact ⟨by first | rfl | trivial, ⟨rfl, rfl, rfl, hh, t1, t2⟩, by simp⟩
-        · exact ⟨by first | rfl | trivial, ⟨rfl, rfl, rfl, hh, t1, t2⟩, by simp⟩
-      | other => exact ⟨rfl, ⟨h1, h2, h3, hh, t1, t2⟩, fun _ h => by cases h⟩
-
-theorem simulate_frame (K : Kernels) (b : BH) (g : GHE) (m : Method) :
-    (simulate K b g m).2.st = g.st ∧ (simulate K b g m).2.field = g.field ∧ (simulate K b g m).2.hLoad = g.hLoad ∧
-    (simulate K b g m).2.gf.heights = g.gf.heights := by
-  unfold simulate
-  split_ifs
-  · exact ⟨rfl, rfl, rfl, rfl⟩
-  · rcases hL : lookup g.gf b.H with ⟨r, gf1⟩
-    have k1 := lookup_heights g.gf b.H
-    rw [hL] at k1
-    cases r with
-    | error e => exact ⟨rfl, rfl, rfl, k1⟩
-    | ok look =>
-      cases m with
-      | hybrid => exact ⟨rfl, rfl, rfl, k1⟩
-      | hourly => simp only; split_ifs <;> exact ⟨rfl, rfl, rfl, k1⟩
-      | other => exact ⟨rfl, rfl, rfl, k1⟩
+        · exact ⟨by first | rfl | trivial, ⟨rfl, rfl, rfl, hh⟩, by simp⟩
+        · exact ⟨by first | rfl | trivial, ⟨rfl, rfl, rfl, hh⟩, by simp⟩
+      | other => exact ⟨rfl, ⟨h1, h2, h3, hh⟩, fun _ h => by cases h⟩
 
 /-- Results of a stateful GHE operation on two equivalent objects: same outcome, same borehole,
-    equivalent objects, stored heights unchanged. -/
-structure Rel3 {α : Type} (r r' : Py α × BH × GHE) (hs : List Rat) : Prop where
+    equivalent objects. -/
+structure Rel3 {α : Type} (r r' : Py α × BH × GHE) : Prop where
   out : r.1 = r'.1
   b : r.2.1 = r'.2.1
   eqv : Eqv r.2.2 r'.2.2
-  hts : r.2.2.gf.heights = hs
 
-theorem objective_eqv (K : Kernels) (m : Method) (h : Rat) (b : BH) (g g' : GHE) (he : Eqv g g')
-    (hc : Covered g.gf.heights h) :
-    Rel3 (objective K m h b g) (objective K m h b g') g.gf.heights := by
-  have hs := simulate_eqv K { b with H := h } g g' m he hc
-  have hf := simulate_frame K { b with H := h } g m
+theorem objective_eqv (K : Kernels) (m : Method) (h : Rat) (b : BH) (g g' : GHE) (he : Eqv g g') :
+    Rel3 (objective K m h b g) (objective K m h b g') := by
+  have hs := simulate_eqv K { b with H := h } g g' m he
   simp only [objective]
   rcases h1 : simulate K { b with H := h } g m with ⟨r, g1⟩
   rcases h2 : simulate K { b with H := h } g' m with ⟨r', g1'⟩
   rw [h1, h2] at hs
-  rw [h1] at hf
   obtain ⟨e1, e2, _⟩ := hs
-  simp only at e1 e2 hf
+  simp only at e1 e2
   subst e1
   cases r with
-  | error e => exact ⟨rfl, rfl, e2, hf.2.2.2⟩
-  | ok t => exact ⟨by simp only [he.st], rfl, e2, hf.2.2.2⟩
+  | error e => exact ⟨rfl, rfl, e2⟩
+  | ok t => exact ⟨by simp only [he.st], rfl, e2⟩
 
-inductive ProbeIn (P : Rat → Prop) : Probe → Prop
-  | ret (x : Rat) : P x → ProbeIn P (.ret x)
-  | raise (e : PyErr) : ProbeIn P (.raise e)
-  | ask (h : Rat) (k : Rat → Probe) : P h → (∀ v, ProbeIn P (k v)) → ProbeIn P (.ask h k)
-
-theorem runProbe_eqv (K : Kernels) (m : Method) (hs : List Rat) (p : Probe) (hp : ProbeIn (Covered hs) p) :
-    ∀ (b : BH) (g g' : GHE), Eqv g g' → g.gf.heights = hs →
-      Rel3 (runProbe K m p b g) (runProbe K m p b g') hs ∧ ∀ x, (runProbe K m p b g).1 = .ok x → Covered hs x := by
-  induction hp with
-  | ret x hx => intro b g g' he hh; exact ⟨⟨rfl, rfl, he, hh⟩, fun y hy => by cases hy; exact hx⟩
-  | raise e => intro b g g' he hh; exact ⟨⟨rfl, rfl, he, hh⟩, fun y hy => by cases hy⟩
-  | ask h k hh' _ ih =>
-    intro b g g' he hh
-    have ho := objective_eqv K m h b g g' he (hh ▸ hh')
+theorem runProbe_eqv (K : Kernels) (m : Method) (p : Probe) :
+    ∀ (b : BH) (g g' : GHE), Eqv g g' → Rel3 (runProbe K m p b g) (runProbe K m p b g') := by
+  induction p with
+  | ret x => intro b g g' he; exact ⟨rfl, rfl, he⟩
+  | raise e => intro b g g' he; exact ⟨rfl, rfl, he⟩
+  | ask h k ih =>
+    intro b g g' he
+    have ho := objective_eqv K m h b g g' he
     simp only [runProbe]
     rcases h1 : objective K m h b g with ⟨r, b1, g1⟩
     rcases h2 : objective K m h b g' with ⟨r', b1', g1'⟩
     rw [h1, h2] at ho
-    obtain ⟨e1, e2, e3, e4⟩ := ho
-    simp only at e1 e2 e3 e4
+    obtain ⟨e1, e2, e3⟩ := ho
+    simp only at e1 e2 e3
     subst e1; subst e2
     cases r with
-    | error e => exact ⟨⟨rfl, rfl, e3, by rw [e4, hh]⟩, fun y hy => by cases hy⟩
-    | ok v => exact ih v b1 g1 g1' e3 (by rw [e4, hh])
+    | error e => exact ⟨rfl, rfl, e3⟩
+    | ok v => exact ih v b1 g1 g1' e3
 
-
-theorem solveRoot_eqv (K : Kernels) (m : Method) (hs : List Rat) (lo hi : Rat) (hlo : Covered hs lo) (hhi : Covered hs hi)
-    (hp : ProbeIn (Covered hs) (K.brent lo hi)) (b : BH) (g g' : GHE) (he : Eqv g g') (hh : g.gf.heights = hs) :
-    Rel3 (solveRoot K m lo hi b g) (solveRoot K m lo hi b g') hs ∧ ∀ x, (solveRoot K m lo hi b g).1 = .ok x → Covered hs x := by
-  have ho := objective_eqv K m lo b g g' he (hh ▸ hlo)
+theorem solveRoot_eqv (K : Kernels) (m : Method) (lo hi : Rat) (b : BH) (g g' : GHE) (he : Eqv g g') :
+    Rel3 (solveRoot K m lo hi b g) (solveRoot K m lo hi b g') := by
+  have ho := objective_eqv K m lo b g g' he
   simp only [solveRoot]
   rcases h1 : objective K m lo b g with ⟨r, b1, g1⟩
   rcases h2 : objective K m lo b g' with ⟨r', b1', g1'⟩
   rw [h1, h2] at ho
-  obtain ⟨e1, e2, e3, e4⟩ := ho
-  simp only at e1 e2 e3 e4
+  obtain ⟨e1, e2, e3⟩ := ho
+  simp only at e1 e2 e3
   subst e1; subst e2
   cases r with
-  | error e => exact ⟨⟨rfl, rfl, e3, by rw [e4, hh]⟩, fun y hy => by cases hy⟩
+  | error e => exact ⟨rfl, rfl, e3⟩
   | ok minus =>
-    have hh1 : g1.gf.heights = hs := by rw [e4, hh]
-    have ho2 := objective_eqv K m hi b1 g1 g1' e3 (hh1 ▸ hhi)
+    have ho2 := objective_eqv K m hi b1 g1 g1' e3
     simp only
     rcases h3 : objective K m hi b1 g1 with ⟨r2, b2, g2⟩
     rcases h4 : objective K m hi b1 g1' with ⟨r2', b2', g2'⟩
     rw [h3, h4] at ho2
-    obtain ⟨f1, f2, f3, f4⟩ := ho2
-    simp only at f1 f2 f3 f4
+    obtain ⟨f1, f2, f3⟩ := ho2
+    simp only at f1 f2 f3
     subst f1; subst f2
-    have hh2 : g2.gf.heights = hs := by rw [f4, hh1]
     cases r2 with
-    | error e => exact ⟨⟨rfl, rfl, f3, hh2⟩, fun y hy => by cases hy⟩
+    | error e => exact ⟨rfl, rfl, f3⟩
     | ok plus =>
       simp only
       cases sgn minus with
-      | error e => exact ⟨⟨rfl, rfl, f3, hh2⟩, fun y hy => by cases hy⟩
+      | error e => exact ⟨rfl, rfl, f3⟩
       | ok sm =>
         cases sgn plus with
-        | error e => exact ⟨⟨rfl, rfl, f3, hh2⟩, fun y hy => by cases hy⟩
+        | error e => exact ⟨rfl, rfl, f3⟩
         | ok sp =>
           simp only
           split_ifs
-          · exact runProbe_eqv K m hs _ hp b2 g2 g2' f3 hh2
-          · exact ⟨⟨rfl, rfl, f3, hh2⟩, fun y hy => by cases hy; exact hlo⟩
-          · exact ⟨⟨rfl, rfl, f3, hh2⟩, fun y hy => by cases hy; exact hhi⟩
+          · exact runProbe_eqv K m _ b2 g2 g2' f3
+          · exact ⟨rfl, rfl, f3⟩
+          · exact ⟨rfl, rfl, f3⟩
 
-/-- What `size` needs of the stored heights: both ends of the window and every point brentq asks for
-    are covered (no extrapolation). -/
-def SizeCovered (K : Kernels) (g : GHE) : Prop :=
-  Covered g.gf.heights g.st.sim.minH ∧ Covered g.gf.heights g.st.sim.maxH ∧
-  ProbeIn (Covered g.gf.heights) (K.brent g.st.sim.minH g.st.sim.maxH)
-
-theorem size_eqv (K : Kernels) (m : Method) (b : BH) (g g' : GHE) (he : Eqv g g') (hc : SizeCovered K g) :
-    Rel3 (size K m b g) (size K m b g') g.gf.heights ∧
+theorem size_eqv (K : Kernels) (m : Method) (b : BH) (g g' : GHE) (he : Eqv g g') :
+    Rel3 (size K m b g) (size K m b g') ∧
     (∀ u, (size K m b g).1 = .ok u → (size K m b g).2.2.last = (size K m b g').2.2.last) := by
-  obtain ⟨c1, c2, c3⟩ := hc
-  have hr := solveRoot_eqv K m g.gf.heights g.st.sim.minH g.st.sim.maxH c1 c2 c3
-    { b with H := (g.st.sim.maxH + g.st.sim.minH) / 2 } g g' he rfl
+  have hr := solveRoot_eqv K m g.st.sim.minH g.st.sim.maxH
+    { b with H := (g.st.sim.maxH + g.st.sim.minH) / 2 } g g' he
   simp only [size]
   rw [← he.st]
   rcases h1 : solveRoot K m g.st.sim.minH g.st.sim.maxH { b with H := (g.st.sim.maxH + g.st.sim.minH) / 2 } g with ⟨r, b1, g1⟩
   rcases h2 : solveRoot K m g.st.sim.minH g.st.sim.maxH { b with H := (g.st.sim.maxH + g.st.sim.minH) / 2 } g' with ⟨r', b1', g1'⟩
   rw [h1, h2] at hr
-  obtain ⟨⟨e1, e2, e3, e4⟩, e5⟩ := hr
-  simp only at e1 e2 e3 e4 e5
+  obtain ⟨e1, e2, e3⟩ := hr
+  simp only at e1 e2 e3
   subst e1; subst e2
   cases r with
-  | error e => exact ⟨⟨rfl, rfl, e3, e4⟩, fun _ h => by cases h⟩
+  | error e => exact ⟨⟨rfl, rfl, e3⟩, fun _ h => by cases h⟩
   | ok x =>
-    have hx := e5 x rfl
-    have hs := simulate_eqv K { b1 with H := x } g1 g1' m e3 (e4 ▸ hx)
-    have hf := simulate_frame K { b1 with H := x } g1 m
+    have hs := simulate_eqv K { b1 with H := x } g1 g1' m e3
     simp only
     rcases h3 : simulate K { b1 with H := x } g1 m with ⟨r2, g2⟩
     rcases h4 : simulate K { b1 with H := x } g1' m with ⟨r2', g2'⟩
     rw [h3, h4] at hs
-    rw [h3] at hf
     obtain ⟨f1, f2, f3⟩ := hs
-    simp only at f1 f2 f3 hf
+    simp only at f1 f2 f3
     subst f1
     cases r2 with
-    | error e => exact ⟨⟨rfl, rfl, f2, by rw [hf.2.2.2, e4]⟩, fun _ h => by cases h⟩
-    | ok t => exact ⟨⟨rfl, rfl, f2, by rw [hf.2.2.2, e4]⟩, fun _ _ => f3 t rfl⟩
-
+    | error e => exact ⟨⟨rfl, rfl, f2⟩, fun _ h => by cases h⟩
+    | ok t => exact ⟨⟨rfl, rfl, f2⟩, fun _ _ => f3 t rfl⟩
 
 theorem computeG_eqv (K : Kernels) (b : BH) (g g' : GHE) (he : Eqv g g') :
     (computeG K b g).1 = (computeG K b g').1 ∧ Eqv (computeG K b g).2 (computeG K b g').2 := by
-  obtain ⟨h1, h2, h3, h4, h5, h6⟩ := he
+  obtain ⟨h1, h2, h3, h4⟩ := he
   simp only [computeG, h1, h2]
   split_ifs
-  · exact ⟨rfl, ⟨rfl, rfl, h3, rfl, Or.inl rfl, Or.inl rfl⟩⟩
-  · exact ⟨rfl, ⟨h1, h2, h3, h4, h5, h6⟩⟩
+  · exact ⟨rfl, ⟨rfl, rfl, h3, rfl⟩⟩
+  · exact ⟨rfl, ⟨h1, h2, h3, h4⟩⟩
 
 /-- States of one GHE + borehole that differ at most in what earlier calls left in the object. -/
 def RelS (s s' : GSt) : Prop := s.b = s'.b ∧ Eqv s.g s'.g
 
-def CoveredOp (K : Kernels) : GOp → GSt → Prop
-  | .setH _, _ => True
-  | .cgf, _ => True
-  | .simulate _, s => Covered s.g.gf.heights s.b.H
-  | .size _, s => SizeCovered K s.g
-
-/-- Every simulation of the sequence (the probes of `size` included) is made at a height the
-    stored g-functions cover, so that no interpolation table is ever built in extrapolating mode. -/
-def Covering (K : Kernels) : List GOp → GSt → Prop
-  | [], _ => True
-  | op :: r, s => CoveredOp K op s ∧ Covering K r (gstep K op s).2
-
-theorem gstep_eqv (K : Kernels) (op : GOp) (s s' : GSt) (hr : RelS s s') (hc : CoveredOp K op s) :
+theorem gstep_eqv (K : Kernels) (op : GOp) (s s' : GSt) (hr : RelS s s') :
     (gstep K op s).1 = (gstep K op s').1 ∧ RelS (gstep K op s).2 (gstep K op s').2 := by
   obtain ⟨hb, he⟩ := hr
   cases op with
   | setH h => exact ⟨rfl, by simp only [gstep, hb]; exact ⟨rfl, he⟩⟩
   | simulate m =>
-    have h := simulate_eqv K s.b s.g s'.g m he hc
+    have h := simulate_eqv K s.b s.g s'.g m he
     simp only [gstep, ← hb]
     rcases h1 : simulate K s.b s.g m with ⟨r, g1⟩
     rcases h2 : simulate K s.b s'.g m with ⟨r', g1'⟩
@@ -275,12 +216,12 @@ theorem gstep_eqv (K : Kernels) (op : GOp) (s s' : GSt) (hr : RelS s s') (hc : C
     subst e1
     cases r <;> exact ⟨rfl, rfl, e2⟩
   | size m =>
-    have h := size_eqv K m s.b s.g s'.g he hc
+    have h := size_eqv K m s.b s.g s'.g he
     simp only [gstep, ← hb]
     rcases h1 : size K m s.b s.g with ⟨r, b1, g1⟩
     rcases h2 : size K m s.b s'.g with ⟨r', b1', g1'⟩
     rw [h1, h2] at h
-    obtain ⟨⟨e1, e2, e3, _⟩, e5⟩ := h
+    obtain ⟨⟨e1, e2, e3⟩, e5⟩ := h
     simp only at e1 e2 e3 e5
     subst e1; subst e2
     cases r with
@@ -298,19 +239,18 @@ theorem gstep_eqv (K : Kernels) (op : GOp) (s s' : GSt) (hr : RelS s s') (hc : C
     cases r <;> exact ⟨rfl, rfl, e2⟩
 
 theorem relS_reset (s s' : GSt) (hr : RelS s s') : RelS s (resetS s') := by
-  obtain ⟨hb, ⟨h1, h2, h3, h4, h5, _⟩⟩ := hr
-  exact ⟨hb, ⟨h1, h2, h3, h4, h5, Or.inl rfl⟩⟩
+  obtain ⟨hb, ⟨h1, h2, h3, h4⟩⟩ := hr
+  exact ⟨hb, ⟨h1, h2, h3, h4⟩⟩
 
 theorem runG_refines (K : Kernels) (ops : List GOp) :
-    ∀ (s s' : GSt), RelS s s' → Covering K ops s → (runG K ops s).1 = specG K ops s' := by
+    ∀ (s s' : GSt), RelS s s' → (runG K ops s).1 = specG K ops s' := by
   induction ops with
-  | nil => intro s s' _ _; rfl
+  | nil => intro s s' _; rfl
   | cons op r ih =>
-    intro s s' hr hc
-    obtain ⟨c1, c2⟩ := hc
-    have h := gstep_eqv K op s (resetS s') (relS_reset s s' hr) c1
+    intro s s' hr
+    have h := gstep_eqv K op s (resetS s') (relS_reset s s' hr)
     simp only [runG, specG]
-    rw [← h.1, ih (gstep K op s).2 (gstep K op (resetS s')).2 h.2 c2]
+    rw [← h.1, ih (gstep K op s).2 (gstep K op (resetS s')).2 h.2]
 
 /-! ## Part 2 — one search object -/
 
